@@ -119,7 +119,7 @@ def encode(prog, shapes=None):
             s = f"concat~{st['axis']}~{_f_l(a)}"
         elif op == "reduce":
             ax = st["axis"]
-            axs = "N" if ax is None else _f_l(ax if isinstance(ax, list) else [ax])
+            axs = "N" if ax is None else _f_l(sorted(ax) if isinstance(ax, list) else [ax])
             se = "N" if st.get("split_every") is None else str(st["split_every"])
             s = f"reduce~{st['fn']}~{a[0]}~{axs}~{1 if st['keepdims'] else 0}~{se}"
         elif op == "flip":
@@ -409,7 +409,7 @@ def encode2(prog, shapes, real=None, stats=None):
             k = emit(f"stack~{axis}~{_f_l(ks)}")
         elif op == "reduce":
             ax = st["axis"]
-            axs = "N" if ax is None else _f_l(ax if isinstance(ax, list) else [ax])
+            axs = "N" if ax is None else _f_l(sorted(ax) if isinstance(ax, list) else [ax])
             se = "N" if st.get("split_every") is None else str(st["split_every"])
             k = emit(f"reduce~{st['fn']}~{a[0]}~{axs}~{1 if st['keepdims'] else 0}~{se}")
         elif op == "flip":
